@@ -181,4 +181,37 @@ PROPS = {
         "level_text": "Machine-checked Lean 4 theorems about the model's get(): an object reaches a caller only by the step in which the last callback of the sequence answers ok (C04_handout_requires_all_ok - the three hand-out situations are exhaustive); callbacks are entered in registration order, one after the ok of the previous one, on the same object with unchanged metrics, starting at index 0 when the object is popped (C04_recycle_sequence_*, C04_post_create_in_order); any failing / timed-out / cancelled / panicking recycling step sends exactly that object down the discard path - one detach, destruction - and a recycle error or timeout continues silently with `retry` (C04_recycle_failure_discards, C04_discard_path); a destroyed object is never in anybody's hands, idle or handed out in any continuation (C04_discarded_never_reissued, from the counting invariant Conserve for all reachable states); in every reachable state a failing get() is about to report only a documented variant with its documented cause, never a recycling error or Timeout(Recycle) (C04_error_variants, invariant). Tied to the code by the correspondence run on the full event stream (every callback with object id and metrics, detach, destroy, hand-out, result) and by a per-get grammar monitor over the real call log; outcomes are assigned to the n-th call of every callback with 0-2 hooks per kind, sync and async.",
         "level_note": "The sequencing theorems are step-level (decision logic stated outright) plus reachable-state invariants; the trace-level reading (the event log of each get follows the grammar) is checked on the implementation's logs by the monitor. Axioms: propext, Classical.choice, Quot.sound only.",
     },
+    "C08": {
+        "title": "Reuse order follows the queue mode; creation is lazy; no background work",
+        "modules": ["DeadpoolVerif.Props.C08"],
+        "theorems": [
+            "DeadpoolVerif.C08_idle_ordered", "DeadpoolVerif.C08_queue_mode", "DeadpoolVerif.C08_return_appends",
+            "DeadpoolVerif.C08_lazy_create", "DeadpoolVerif.C08_no_background",
+            "DeadpoolVerif.run_objinv",
+        ],
+        "projection": BASE + SEM + CNT + ["idle", "out", "live", "ev"],
+        "extra": ["background"],
+        "profiles": {"quick": [("retain", 500), ("faults", 400), ("resize", 300)],
+                     "thorough": [("retain", 10000), ("faults", 8000), ("resize", 6000), ("cancel", 4000)]},
+        "monitor": "C08",
+        "design_ref": "DESIGN.md §6 C08",
+        "level_text": "Machine-checked Lean 4 theorems: in every reachable state (any history of gets, returns in any order, takes, retains, resizes, rejected recycles; both modes; any max_size) the idle queue is ordered by the time the objects were returned (C08_idle_ordered, invariant with a ghost return time), so the object a get() pops is one that has been idle longest in Fifo mode and one returned most recently in Lifo mode (C08_queue_mode); a return appends at the back; Manager::create is called only by the step of a get() that just found the queue empty under the mutex (C08_lazy_create, over all steps of all operations); a freshly built pool has an empty call log and the log grows only by the events of a step of some operation - there is no transition without an operation (C08_no_background). Tied to the code by the correspondence run (idle queue contents and order compared after every step), a reference-queue monitor kept from the return log, the check that every callback event is emitted by the operation that is running, and a background check (pool built on a live multi-threaded tokio runtime: no user code called at build time or during idle periods).",
+        "level_note": "Absence of spawned background work in the code is validated by the background check and by the fact that every callback observed in any trace belongs to the stepping operation; the model has no such transition by construction. Axioms: propext, Classical.choice, Quot.sound only.",
+    },
+    "C13": {
+        "title": "Per-object metrics tell the truth",
+        "modules": ["DeadpoolVerif.Props.C13"],
+        "theorems": [
+            "DeadpoolVerif.C13_metrics_truthful", "DeadpoolVerif.C13_shown_metrics",
+            "DeadpoolVerif.C13_bump_at_handout", "DeadpoolVerif.C13_no_bump_on_failure",
+            "DeadpoolVerif.C13_return_keeps_metrics", "DeadpoolVerif.run_objinv",
+        ],
+        "projection": BASE + ["idle", "out", "ev"],
+        "profiles": {"quick": [("faults", 700), ("retain", 400), ("cancel", 300)],
+                     "thorough": [("faults", 12000), ("retain", 8000), ("cancel", 6000)]},
+        "monitor": "C13",
+        "design_ref": "DESIGN.md §6 C13",
+        "level_text": "Machine-checked Lean 4 theorems: in every reachable state every object of the pool, wherever it is, has recycle_count = hand-outs - 1 (ghost hand-out counter), a recycled instant that is absent exactly while recycle_count = 0, created <= recycled <= now; freshly created objects have count 0 and no recycled instant (C13_metrics_truthful, invariant ObjInv); every metrics value ever shown to a pre_recycle hook, Manager::recycle, a post_recycle hook, a retain predicate or a caller satisfies the same relation for the hand-outs that had happened when it was shown, and post_create hooks see fresh metrics (C13_shown_metrics, over the whole log); the bump (count + 1, recycled := now) happens exactly in the hand-out step after a complete successful recycle and never on a failed / rejected / cancelled one; a return puts the object back with untouched metrics. Tied to the code by the correspondence run (metrics of every idle object and of every event compared exactly, instants mapped to action numbers) and a monitor with its own per-object hand-out bookkeeping.",
+        "level_note": "Instant monotonicity is trusted; instants are compared through the order-preserving map instant -> index of the action during which it was taken. Axioms: propext, Classical.choice, Quot.sound only.",
+    },
 }
